@@ -1,11 +1,14 @@
 #!/bin/bash
-# usage: tools/seed_eval.sh Cxx   -- confirm a seeded change in /tmp/seed_Cxx and run the check against it
+# usage: tools/seed_eval.sh Cxx [dir]  -- confirm a seeded change in dir (default /tmp/seed_Cxx) and run the check against it
+# (no git stash: the stash is shared between worktrees)
 id=$1
 d=${2:-/tmp/seed_$id}
 cd $d || exit 2
+git diff -- lcapy > /tmp/sd_$id.patch
+[ -s /tmp/sd_$id.patch ] || { echo "no change applied in $d"; exit 2; }
 PYTHONPATH=$d timeout 900 /venv/bin/python -W ignore demo_seed.py > /tmp/sd_$id.with 2>&1; echo "demo with change: exit=$?"
-git stash -q
+git apply -R /tmp/sd_$id.patch
 PYTHONPATH=$d timeout 900 /venv/bin/python -W ignore demo_seed.py > /tmp/sd_$id.without 2>&1; echo "demo without change: exit=$?"
-git stash pop -q
+git apply /tmp/sd_$id.patch
 git status --short | grep -v '^??' | head -5
 cd /verif && VERIF_REPO=$d ./check $id 2>&1 | grep -v "^KNOWN-FINDING" | cut -c1-220 | tail -8
